@@ -125,3 +125,67 @@ def lemma_write_is_unconditional(ctx):
             ("gen_params: the itp writer is called inside the deferred-open block", [], z3.BoolVal(writer_in_with)),
             ("gen_params: no return / raise / break between the ApplyLinks stage and the end of the function"
              + (f"  [line {exits[0].lineno}]" if exits else ""), [], z3.BoolVal(not exits))]
+
+
+def lemma_dsdna_route(ctx):
+    """C19, the part that the control flow of gen_params decides: with the -dsdna option the completion runs on EVERY route by which
+    the strand can be given (-seq tokens or a sequence file), on the residue graph that is then mapped: the call of complement_dsDNA is
+    a top-level statement of gen_params guarded by the option alone, after every construction of the residue graph, before the mapping."""
+    import z3
+    from pyvc.types import Unsupported
+    mod = source.load("polyply.src.gen_itp")
+    fn = mod.functions.get("gen_params")
+    if fn is None:
+        raise Unsupported("gen_params not found (stale contract)")
+    body = fn.body
+
+    def calls(st, name):
+        return [n for n in ast.walk(st) if isinstance(n, ast.Call) and call_name(n) == name]
+    where = [i for i, st in enumerate(body) if calls(st, "complement_dsDNA")]
+    anywhere = [n for n in ast.walk(fn) if isinstance(n, ast.Call) and call_name(n) == "complement_dsDNA"]
+    if not anywhere:
+        raise Unsupported("complement_dsDNA is not called in gen_params (stale contract)")
+    top = [body[i] for i in where]
+    guarded = bool(top) and all(isinstance(st, ast.If) and isinstance(st.test, ast.Name) and st.test.id == "dsdna" and not st.orelse
+                                and any(calls(s, "complement_dsDNA") for s in st.body) for st in top)
+    # the graph constructions: statements that bind meta_molecule before the completion
+    binds = [i for i, st in enumerate(body) for n in ast.walk(st)
+             if isinstance(n, ast.Assign) and any(isinstance(t, ast.Name) and t.id == "meta_molecule" for t in n.targets)
+             and any(isinstance(c, ast.Call) and call_name(c) in ("from_monomer_seq_linear", "from_sequence_file", "from_itp", "from_block") for c in ast.walk(n.value))]
+    maps = [i for i, st in enumerate(body) if calls(st, "MapToMolecule")]
+    args_ok = all(len(c.args) == 1 and isinstance(c.args[0], ast.Name) and c.args[0].id == "meta_molecule" for c in anywhere)
+    rebinds = [n for st in body[:(where[0] if where else 0)] for n in ast.walk(st)
+               if isinstance(n, (ast.Assign, ast.AugAssign, ast.AnnAssign)) and any(isinstance(t, ast.Name) and t.id == "dsdna" for t in (n.targets if isinstance(n, ast.Assign) else [n.target]))]
+    return [("gen_params: every call of complement_dsDNA sits in a top-level `if dsdna:` statement (guarded by the option alone, on every input route)", [],
+             z3.BoolVal(guarded and len(where) == len(anywhere) == 1)),
+            ("gen_params: the completion comes after every construction of the residue graph and before the mapping stage", [],
+             z3.BoolVal(bool(where) and bool(binds) and bool(maps) and max(binds) < where[0] < min(maps))),
+            ("gen_params: the completed graph is the one that is mapped (argument meta_molecule) and the option is not rebound before", [],
+             z3.BoolVal(args_ok and not rebinds))]
+
+
+def lemma_split_once(ctx):
+    """C18 (splitting partitions the atoms ...): MetaMolecule.split_residue interprets ALL split strings against the unsplit molecule and
+    relabels once -- the relabelling (which renumbers residues and so shifts what a later string would address) is a single top-level
+    call after the loop, on the accumulated mapping; inside the loop only the mapping is extended."""
+    import z3
+    from pyvc.types import Unsupported
+    mod = source.load("polyply.src.meta_molecule")
+    fn = mod.functions.get("MetaMolecule.split_residue")
+    if fn is None:
+        raise Unsupported("MetaMolecule.split_residue not found (stale contract)")
+    relabels = [n for n in ast.walk(fn) if isinstance(n, ast.Call) and call_name(n) == "relabel_and_redo_res_graph"]
+    loops = [st for st in fn.body if isinstance(st, (ast.For, ast.While))]
+    in_loop = [n for lp in loops for n in ast.walk(lp) if isinstance(n, ast.Call) and call_name(n) == "relabel_and_redo_res_graph"]
+    top = [i for i, st in enumerate(fn.body) if isinstance(st, ast.Expr) and isinstance(st.value, ast.Call) and call_name(st.value) == "relabel_and_redo_res_graph"]
+    loop_idx = [i for i, st in enumerate(fn.body) if isinstance(st, (ast.For, ast.While))]
+    updates = [n for lp in loops for n in ast.walk(lp) if isinstance(n, ast.Call) and call_name(n) == "update"
+               and isinstance(n.func, ast.Attribute) and isinstance(n.func.value, ast.Name)]
+    acc = updates[0].func.value.id if updates else None
+    arg_ok = bool(relabels) and all(len(c.args) == 1 and isinstance(c.args[0], ast.Name) and c.args[0].id == acc for c in relabels)
+    interp = [n for lp in loops for n in ast.walk(lp) if isinstance(n, ast.Call) and call_name(n) == "_interpret_residue_mapping"]
+    unsplit = all(len(c.args) >= 1 and ast.unparse(c.args[0]) == "self.molecule" for c in interp)
+    return [("split_residue: the residue graph is relabelled exactly once, by a top-level call after the loop over the split strings", [],
+             z3.BoolVal(len(relabels) == 1 and not in_loop and len(top) == 1 and bool(loop_idx) and top[0] > max(loop_idx))),
+            ("split_residue: every split string is interpreted against the molecule and only extends the accumulated mapping, which is what is relabelled", [],
+             z3.BoolVal(bool(interp) and unsplit and arg_ok))]
